@@ -271,6 +271,8 @@ def run(chk):
                     feats.add("extended-id")
             if desc["attr_defs"]:
                 feats.add("attributes")
+            if len({f["id"] for f in desc["frames"]}) < len(desc["frames"]):
+                feats.add("std-ext-same-number")
             if any(len(n) > 32 for n in [e["name"] for e in desc["ecus"]] + [f["name"] for f in desc["frames"]]
                    + [s["name"] or "" for f in desc["frames"] for s in f["signals"]]):
                 feats.add("long-names")
